@@ -68,7 +68,8 @@ E_TENV = {"a": "int", "b": "int", "x": "float"}
 E_LEAVES = [("var", "a"), ("var", "b"), ("var", "x"), lit(2), lit(0.5), lit(-3)]
 E_LEAVES_SMALL = [("var", "a"), ("var", "x"), lit(2)]
 A_VALUES = {"quick": (-7, -2, 0, 1, 3), "thorough": (-7, -2, -1, 0, 1, 2, 3, 7)}
-X_VALUES = {"quick": (-0.5, 0.0, 2.0), "thorough": (-1.5, -0.5, 0.0, 0.5, 2.0, 3.0)}
+# the last value of each tuple is a Python int passed for the float parameter (the suite itself passes ints for floats)
+X_VALUES = {"quick": (-0.5, 0.0, 2.0, 3), "thorough": (-1.5, -0.5, 0.0, 0.5, 2.0, 3.0, 3, -2)}
 
 
 def expr_trees(n, leaves):
@@ -430,7 +431,7 @@ def fam_D(tier):
 # =============================================================================================
 def r_case(kind, loop, place, pos):
     T = "float" if kind == "float" else "int"
-    structs = [("P", [("int", "fa"), ("int", "hb")])]
+    structs = [("P", [("int", "fa"), ("int", "hb")]), ("PA", [(("arr", "int", (2,)), "ar"), (("struct", "P"), "inner")])]
     bump = lambda lv: ASG(lv, B("+", B("+", lv, V("n")), lit(1)))
     tr = lambda e: ASG(V("t"), B("%", B("+", B("*", V("t"), lit(31)), e), lit(MOD)))
     if kind == "int":
@@ -446,6 +447,13 @@ def r_case(kind, loop, place, pos):
         uses = [bump(IDX(IDX(V("v"), 1), 0)), tr(B("+", B("+", IDX(IDX(V("v"), 0), 0), IDX(IDX(V("v"), 0), 1)), B("+", IDX(IDX(V("v"), 1), 0), IDX(IDX(V("v"), 1), 1))))]
     elif kind == "struct":
         decl, uses = ("decl", ("struct", "P"), "v", None), [bump(FLD(V("v"), "hb")), tr(B("+", FLD(V("v"), "fa"), FLD(V("v"), "hb")))]
+    elif kind == "struct-array-field":
+        decl, uses = ("decl", ("struct", "PA"), "v", None), [bump(IDX(FLD(V("v"), "ar"), 1)), tr(B("+", IDX(FLD(V("v"), "ar"), 0), IDX(FLD(V("v"), "ar"), 1)))]
+    elif kind == "struct-nested-field":
+        decl, uses = ("decl", ("struct", "PA"), "v", None), [bump(FLD(FLD(V("v"), "inner"), "hb")), tr(B("+", FLD(FLD(V("v"), "inner"), "fa"), FLD(FLD(V("v"), "inner"), "hb")))]
+    elif kind == "array-of-vectors":
+        decl = ("decl", ("arr", ("vec", "int", 2), (2,)), "v", None)
+        uses = [bump(IDX(IDX(V("v"), 1), 0)), tr(B("+", B("+", IDX(IDX(V("v"), 0), 0), IDX(IDX(V("v"), 0), 1)), B("+", IDX(IDX(V("v"), 1), 0), IDX(IDX(V("v"), 1), 1))))]
     else:
         raise ValueError(kind)
     core = [decl] + uses if pos == "first" else [tr(lit(7)), decl] + uses
@@ -474,7 +482,7 @@ def r_case(kind, loop, place, pos):
 
 @family("R")
 def fam_R(tier):
-    for kind in ("int", "int-init", "float", "array", "array2", "struct"):
+    for kind in ("int", "int-init", "float", "array", "array2", "struct", "struct-array-field", "struct-nested-field", "array-of-vectors"):
         for loop in ("for", "while", "do"):
             for place in ("body", "block", "if", "nested"):
                 for pos in ("first", "middle"):
@@ -2127,3 +2135,37 @@ def fam_M(tier):
                 if cname in ("div-literal-right",) and s2 is not srcs[0]:
                     continue
                 yield (m_case, s1, s2, cname)
+
+
+# =============================================================================================
+# U: int / uint / float mixes (type identity of integer types matters for listings, casts and wasm opcodes)
+# =============================================================================================
+U_PROGRAMS = [
+    ("uint-int-params", "export function f(int a, uint u, float x) -> int { int r = a; uint w = u; r = r + 1; w = w + 2; return r * 100 + w; }"),
+    ("cast-negative-float-both", "function ti(int p) -> int { return p; }\nfunction tu(uint p) -> uint { return p; }\nexport function f(int a, uint u, float x) -> int { return ti(x) * 1000 + tu(x); }"),
+    ("uint-arith", "export function f(int a, uint u, float x) -> uint { uint w = u * 3; w = w / 2; return w + u; }"),
+    ("int-uint-mixed-arith", "export function f(int a, uint u, float x) -> int { return a + u; }"),
+    ("uint-compare", "export function f(int a, uint u, float x) -> int { if (u > 2) { return 1; } return a < u; }"),
+    ("uint-vector", "export function f(int a, uint u, float x) -> uint3 { uint3 v = uint3(u, u + 1, 7); int3 w = int3(a, a, a); v[1] = u; return v; }"),
+    ("uint-index", "export function f(int a, uint u, float x) -> int { int[4] arr; arr[u] = 5; arr[a] = arr[a] + 2; return arr[u] + arr[0]; }"),
+    ("uint-loop", "export function f(int a, uint u, float x) -> int { int t = 0; for (uint i = 0; i < u; ++i) { t = t + a; } return t; }"),
+    ("uint-struct-array", "struct SU { uint n; int m; float w; }\nexport function f(int a, uint u, float x) -> int { SU s; s.n = u; s.m = a; uint[2] ua; ua[1] = u; return s.n + s.m + ua[1]; }"),
+    ("uint-global", "uint gu;\nint gi;\nexport function f(int a, uint u, float x) -> int { gu = gu + u; gi = gi - a; return gu + gi; }"),
+    ("float-to-uint-and-int-ctor", "export function f(int a, uint u, float x) -> int { int i = int(x); uint w = uint(x); return i * 100 + w; }"),
+    ("only-uint", "export function f(uint u) -> uint { uint w = u + 1; return w * w; }"),
+    ("only-int", "export function f(int a) -> int { int w = a + 1; return w * w; }"),
+]
+
+
+@family("U")
+def fam_U(tier):
+    for name, src in U_PROGRAMS:
+        import re
+        m = re.search(r"export function f\(([^)]*)\)", src)
+        params = [tuple(p.strip().split()) for p in m.group(1).split(",") if p.strip()]
+        inputs = []
+        for a, u, x in ((1, 3, -1.5), (0, 1, 2.0), (2, 0, 0.0)):
+            vals = {"a": a, "u": u, "x": x}
+            globs = {"gu": 4, "gi": 9} if "uint gu;" in src else {}
+            inputs.append(({n: vals[n] for t, n in params}, globs))
+        yield {"fam": "U", "desc": f"int-uint-mix;{name}", "src": src + "\n", "units": [{"funcs": [], "entry": "f", "inputs": inputs}]}
